@@ -331,6 +331,25 @@ def rule_whocall(run):
             if modname == 't2listing' and (fi.cls is None or fi.cls.name not in ('t2listing', 'listingtable')):
                 continue
 
+            # file text: results of readline(), parameters called line/headerline, and anything
+            # sliced / stripped / split / iterated from those (intra-procedural taint, to fixpoint)
+            tainted = set(p for p in fi.params if p in ('line', 'headerline', 'headline'))
+            changed = True
+            while changed:
+                changed = False
+                for n in ast.walk(fi.node):
+                    tgt, val = None, None
+                    if isinstance(n, ast.Assign): tgt, val = n.targets, n.value
+                    elif isinstance(n, (ast.For, ast.comprehension)): tgt, val = [n.target], n.iter
+                    if tgt is None: continue
+                    src = any((isinstance(x, ast.Name) and x.id in tainted) or
+                              (isinstance(x, ast.Call) and call_name(x) == 'readline') for x in ast.walk(val))
+                    if src:
+                        for t in tgt:
+                            for x in ast.walk(t):
+                                if isinstance(x, ast.Name) and x.id not in tainted:
+                                    tainted.add(x.id); changed = True
+
             def visit(node, guarded):
                 nonlocal nbare
                 if isinstance(node, ast.Try):
@@ -343,13 +362,9 @@ def rule_whocall(run):
                 if isinstance(node, ast.Call) and isinstance(node.func, ast.Name) and \
                    node.func.id in ('float', 'int') and len(node.args) == 1:
                     a = node.args[0]
-                    textual = False
-                    for x in ast.walk(a):
-                        # slices of a line/string variable, or .split() pieces
-                        if isinstance(x, ast.Subscript) and isinstance(x.slice, ast.Slice): textual = True
-                        if isinstance(x, ast.Name) and x.id in ('indexstr', 'line', 'strs', 's'): textual = True
-                        if isinstance(x, ast.Call) and call_name(x) in ('split', 'strip', 'readline'): textual = True
-                    if isinstance(a, ast.Name) and a.id in ('indexstr',): textual = True
+                    textual = any((isinstance(x, ast.Name) and x.id in tainted) or
+                                  (isinstance(x, ast.Call) and call_name(x) == 'readline')
+                                  for x in ast.walk(a))
                     if textual:
                         key = '%s :: %s' % (fi.short, norm(node))
                         if guarded:
